@@ -240,7 +240,7 @@ def n5_run(carve):
                 for how in ("inner", "left", "full"):
                     if how == "full" and pname not in ("eq", "eq_swapped", "two_eq", "expr_key", "eq_float_int", "eq_int_float_swapped"):
                         continue
-                    for variant in ("plain", "right_hidden", "left_filtered", "right_const", "right_const_alias", "left_const", "right_filtered"):
+                    for variant in ("plain", "right_hidden", "left_filtered", "right_const", "right_const_alias", "left_const", "right_filtered", "right_computed", "left_computed"):
                         if "join_helper" in carve and False:
                             continue
                         n += 1
@@ -263,6 +263,15 @@ def n5_run(carve):
                                     continue  # after alias() the original references of r are out of scope; covered by C16/X6
                                 extra_cols = [rr.cc]
                                 want = [w + ((5,) if w[3] is not None or w[4] is not None or w[5] is not None else (None,)) for w in want]
+                            if variant == "right_computed":
+                                # a computed column that is not null for null input (fill_null / when(is_null)) must still be NULL on the rows the join adds
+                                rr = r >> pdt.mutate(cc=pdt.when(r.k.is_null()).then(-1).otherwise(r.y.fill_null(0) + 1))
+                                extra_cols = [rr.cc]
+                                want = [w + (((-1 if w[3] is None else w[4] + 1),) if (w[4] is not None or w[5] is not None) else (None,)) for w in want]
+                            if variant == "left_computed":
+                                ll = l >> pdt.mutate(cc=pdt.coalesce(l.k, 0) + 100)
+                                extra_cols = [ll.cc]
+                                want = [w + (((w[0] if w[0] is not None else 0) + 100,) if w[2] is not None else (None,)) for w in want]
                             if variant == "left_const":
                                 ll = l >> pdt.mutate(cc=7)
                                 extra_cols = [ll.cc]
@@ -293,6 +302,32 @@ def n5_run(carve):
     return _enum_outcome("every join kind x predicate shape x operand variant yields exactly the expected row combinations (left and right values read through the original column references)", n, bad)
 
 
+def n6_run(carve):
+    """the join wrappers are the join verb with the documented `how`: same node (how, validate, on) and same visible columns"""
+    import polars as pl
+
+    from .c13 import _enum_outcome
+
+    l = pdt.Table(pl.DataFrame({"k": [1, 2], "x": [1, 2]}), name="l")
+    r = pdt.Table(pl.DataFrame({"k": [1, 3], "y": [5, 6]}), name="r")
+    n, bad = 0, []
+    V = pdt._internal.tree.verbs
+    for wrapper, how in ((pdt.inner_join, "inner"), (pdt.left_join, "left"), (pdt.full_join, "full")):
+        for kw in ({}, {"validate": "1:m"}, {"suffix": "_zz"}):
+            for on in (lambda: l.k == r.k, lambda: "k", lambda: [l.k == r.k, l.x <= r.y] if how != "full" else [l.k == r.k, l.x == r.y]):
+                n += 1
+                a = l >> wrapper(r, on(), **kw)
+                b = l >> pdt.join(r, on(), how, **kw)
+                na, nb = a._ast, b._ast
+                if not isinstance(na, V.Join) or (na.how, na.validate, na.on.ast_repr()) != (nb.how, nb.validate, nb.on.ast_repr()) or [c.name for c in a] != [c.name for c in b]:
+                    bad.append(f"{wrapper.__name__}(.., {kw}) builds Join(how={getattr(na, 'how', None)}, validate={getattr(na, 'validate', None)}, on={na.on.ast_repr() if hasattr(na, 'on') else None}, columns {[c.name for c in a]}); join(how={how!r}) builds (how={nb.how}, validate={nb.validate}, on={nb.on.ast_repr()}, columns {[c.name for c in b]})")
+    n += 1
+    a, b = l >> pdt.cross_join(r), l >> pdt.join(r, [], "inner")
+    if a._ast.how != "inner" or a._ast.on.ast_repr() != b._ast.on.ast_repr() or [c.name for c in a] != [c.name for c in b]:
+        bad.append(f"cross_join builds Join(how={a._ast.how}, on={a._ast.on.ast_repr()}) with columns {[c.name for c in a]}")
+    return _enum_outcome("inner_join / left_join / full_join / cross_join build exactly the node of join(how=...)", n, bad)
+
+
 def obligations(tier):
     fi = H.fn_info
     fns = [fi(verbs_mod.join), fi(verbs_mod.rename), fi(TS.Cache.update), fi(pdt._internal.pipe.pipeable.check_subquery), fi(TS.Cache.requires_subquery)]
@@ -310,7 +345,9 @@ def obligations(tier):
                                       functions=f, bounded=f"table widths {ls.w} and {rs.w} (names symbolic, collisions explored)", tags=("cross_backend",),
                                       carveouts={"join_helper_names": "no column is named __INDEX__ or <left column>_right"}, replayer=make_replayer(ls, rs, label, fn, "polars" if backend == "polars" else "sqlite")))
     obs.append(Obligation("C06/N5/native_matrix", "N5", "exact row combinations of inner / left / full joins natively", n5_run, functions=fns_p + [fi(H.sql_backend.SqlImpl.compile_ast)],
-                          bounded="11 predicate shapes (incl. Float64 vs Int64 keys) x 3 join kinds x 6 operand variants (plain, hidden right key, filtered left / right, constant column on either side) x 2 backends on one pair of 6-row tables with nulls, duplicates and unmatched rows"))
+                          bounded="11 predicate shapes (incl. Float64 vs Int64 keys) x 3 join kinds x 8 operand variants (plain, hidden right key, filtered left / right, constant or computed non-null-propagating column on either side) x 2 backends on one pair of 6-row tables with nulls, duplicates and unmatched rows"))
+    obs.append(Obligation("C06/N6/wrappers", "N6", "inner_join / left_join / full_join / cross_join are join(how=...)", n6_run, functions=[fi(verbs_mod.inner_join), fi(verbs_mod.left_join), fi(verbs_mod.full_join), fi(verbs_mod.cross_join), fi(verbs_mod.join)],
+                          bounded="3 wrappers x 3 keyword sets x 3 shapes of `on` (+ cross_join); the wrappers are straight-line calls"))
     return obs
 
 
